@@ -78,13 +78,18 @@ Definition ty_eqb (a b : ty) : bool :=
   | TyDim u, TyDim v => String.eqb u v
   | _, _ => false
   end.
-Record tB := mkB { var_types : list (string * ty); units : list string }.
+(* last_type: the type of the last result (`ans` / `_`, name_resolution.rs LAST_RESULT_IDENTIFIERS) *)
+Record tB := mkB { var_types : list (string * ty); units : list string; last_type : option ty }.
+Definition is_last_result (x : string) : bool := orb (String.eqb x "ans") (String.eqb x "_").
 Inductive eB := UnknownIdentifier | IncompatibleDimensions.
 
 Definition type_atom (b : tB) (a : atom) : ty + eB :=
   match a with
   | ANum _ => inl TyScalar
   | AId x =>
+      if is_last_result x then
+        match last_type b with Some t => inl t | None => inr UnknownIdentifier end
+      else
       match assoc x (var_types b) with
       | Some t => inl t
       | None => if mem x (units b) then inl (TyDim x) else inr UnknownIdentifier
@@ -131,10 +136,15 @@ Definition check1 (b : tB) (s : tstmt) : tB * (tstmt_typed + eB) :=
   | TLet x e =>
       match type_expr b e with
       | inr err => (b, inr err)
-      | inl t => (mkB ((x, t) :: var_types b) (units b), inl (s, "-"))
+      | inl t => (mkB ((x, t) :: var_types b) (units b) (last_type b), inl (s, "-"))
       end
-  | TUnit u => (mkB (var_types b) (units b ++ [u]), inl (s, "-"))
-  | TExpr e | TPrint e =>
+  | TUnit u => (mkB (var_types b) (units b ++ [u]) (last_type b), inl (s, "-"))
+  | TExpr e =>
+      match type_expr b e with
+      | inr err => (b, inr err)
+      | inl t => (mkB (var_types b) (units b) (Some t), inl (s, shown_type s t))   (* ans gets this type *)
+      end
+  | TPrint e =>
       match type_expr b e with
       | inr err => (b, inr err)
       | inl t => (b, inl (s, shown_type s t))
@@ -158,16 +168,21 @@ Fixpoint check (b : tB) (l : list tstmt) : tB * (typed + eB) :=
 
 (* ---- C: the VM (globals) ---- *)
 Definition value := (N * option string)%type.      (* magnitude, unit *)
-Record tC := mkC { globals : list (string * value) }.
+(* last_result: Vm::last_result, what `ans` / `_` evaluate to *)
+Record tC := mkC { globals : list (string * value); last_result : option value }.
 Inductive eC := DivisionByZero.
 
 Definition eval_atom (c : tC) (a : atom) : value :=
   match a with
   | ANum n => (n, None)
-  | AId x => match assoc x (globals c) with
-             | Some v => v
-             | None => (1%N, Some x)            (* a unit identifier: 1 u *)
-             end
+  | AId x =>
+      if is_last_result x then
+        match last_result c with Some v => v | None => (0%N, None) end   (* unreachable after type checking *)
+      else
+      match assoc x (globals c) with
+      | Some v => v
+      | None => (1%N, Some x)            (* a unit identifier: 1 u *)
+      end
   end.
 Definition eval_expr (c : tC) (e : expr) : option value :=
   match e with
@@ -193,13 +208,13 @@ Fixpoint run_all (c : tC) (l : list tstmt) (last : option value) (prints : list 
       | TLet x e =>
           match eval_expr c e with
           | None => (c, inr DivisionByZero, prints)
-          | Some v => run_all (mkC ((x, v) :: globals c)) r last prints
+          | Some v => run_all (mkC ((x, v) :: globals c) (last_result c)) r last prints
           end
       | TUnit _ => run_all c r last prints
       | TExpr e =>
           match eval_expr c e with
           | None => (c, inr DivisionByZero, prints)
-          | Some v => run_all c r (Some v) prints
+          | Some v => run_all (mkC (globals c) (Some v)) r (Some v) prints      (* Op::Return at top level *)
           end
       | TPrint e =>
           match eval_expr c e with
@@ -238,7 +253,7 @@ Definition timporter (tbl : table) (m : string) : option code := assoc m tbl.
 
 Definition tctx := ctx string code tA tB tC.
 Definition fresh : tctx :=
-  mkCtx string code tA tB tC (mkA [] [] []) (mkB [] []) (mkC []) (new_resolver string code).
+  mkCtx string code tA tB tC (mkA [] [] []) (mkB [] [] None) (mkC [] None) (new_resolver string code).
 
 Definition tinterpret (k : skeleton) (tbl : table) (c : tctx) (src : code) :=
   interpret string String.eqb code tstmt (timporter tbl) tparse tA tB tC
@@ -291,7 +306,11 @@ Definition show_digest (c : tctx) : string :=
     ++ join "," (variable_names a) ++ "];fns=[];units=[" ++ join "," (unit_names a)
     ++ "];dims=[];ureps=["
     ++ join "," (sort_strings (map (fun u => u ++ "=" ++ u ++ "[" ++ upper_first u ++ "]") (units b)))
-    ++ "];vals=[" ++ join "," (map val (dedup [] (variable_names a))) ++ "]".
+    ++ "];vals=[" ++ join "," (map val (dedup [] (variable_names a))) ++ "];ans=["
+    ++ match last_result vm, last_type b with
+       | Some v, Some t => show_value v ++ ":" ++ match t with TyScalar => "-" | TyDim u => upper_first u end
+       | _, _ => "-"
+       end ++ "]".
 
 (* a case: operations on one context *)
 Inductive sop := OpI (src : code) | OpDigest.
